@@ -740,10 +740,10 @@ func ruleMergeWorkerShape(c *Ctx, r *R) {
 	}
 	for _, g := range bi.spawned {
 		var next, send *ssa.Call
-		instrs(g, func(b *ssa.BasicBlock, i int, in ssa.Instruction) {
-			call, ok := in.(*ssa.Call)
+		for _, d := range deepInstrs(g, 2) { // the loop may live in a helper the literal delegates to (m.forward(i))
+			call, ok := d.in.(*ssa.Call)
 			if !ok {
-				return
+				continue
 			}
 			if call.Call.IsInvoke() && call.Call.Method.Name() == "Next" {
 				next = call
@@ -751,7 +751,7 @@ func ruleMergeWorkerShape(c *Ctx, r *R) {
 			if cal := staticCallee(&call.Call); cal != nil && fname(cal) == "Send" && cal.Signature.Recv() != nil && isNamedType(cal.Signature.Recv().Type(), "stream", "PipeSender") {
 				send = call
 			}
-		})
+		}
 		if next == nil || send == nil {
 			r.violated("stream.Merge|worker-forward", g.Pos(), "worker must call in[i].Next and sender.Send")
 			continue
